@@ -271,7 +271,7 @@ def search_failing_input(prop, exes, seed, tier_dir):
             for k in range(8):
                 s = seed * 100 + 17 + k
                 od = os.path.join(tier_dir, "search-%s-%d" % (h["name"], k))
-                jobs.append((h, s, ex.submit(run_harness, exe, s, "thorough" if k < 2 else "quick", od, h.get("timeout_thorough", 1500))))
+                jobs.append((h, s, ex.submit(run_harness, exe, s, "thorough" if k == 0 else "quick", od, min(h.get("timeout_thorough", 1500), 900))))
         for h, s, fut in jobs:
             rc, out, dt = fut.result()
             fails = [l[5:] for l in out.split("\n") if l.startswith("FAIL ")]
@@ -383,7 +383,12 @@ def check(pid, tier, seed):
                     shutil.copy2(ops, dst)
                     attached[name] = dst
     if impl_fails:
-        violations.append(("impl-violates-property", {"failing_inputs": impl_fails[:20], "op_files": attached,
+        per, capped = {}, []
+        for x in impl_fails:      # at most 8 failing inputs per harness, 48 in total
+            per[x["harness"]] = per.get(x["harness"], 0) + 1
+            if per[x["harness"]] <= 8 and len(capped) < 48:
+                capped.append(x)
+        violations.append(("impl-violates-property", {"failing_inputs": capped, "failing_inputs_total": len(impl_fails), "op_files": attached,
                            "note": "the implementation contradicted the property's own oracle on these inputs"}, True))
     if (proof_broken or diffs or compile_errors) and not impl_fails:
         found = search_failing_input(prop, exes, seed, tier_dir) if exes else []
